@@ -1,0 +1,42 @@
+package codegen
+
+import (
+	"fmt"
+	"strconv"
+	"strings"
+
+	"github.com/HobbyOSs/gosk/pkg/ng_operand"
+)
+
+// resolveMemoryLabels は "[ label ]" 形式のメモリオペランドに書かれたラベルを、
+// シンボルテーブルのアドレスに置き換えます (置き換えないとディスプレースメントが 0 のまま出力されます)。
+// 定義されていない名前はエラーにします。
+func resolveMemoryLabels(operands []string, ctx *CodeGenContext) ([]string, error) {
+	var out []string
+	for i, op := range operands {
+		lb := strings.Index(op, "[")
+		if lb < 0 {
+			continue
+		}
+		parsed, err := ng_operand.FromString(op)
+		if err != nil {
+			continue // 各命令のハンドラが報告します
+		}
+		mem, ok := parsed.GetMemoryInfo()
+		if !ok || mem == nil || mem.DispLabel == "" {
+			continue
+		}
+		addr, ok := ctx.SymTable[mem.DispLabel]
+		if !ok {
+			return nil, fmt.Errorf("undefined symbol '%s' in memory operand %s", mem.DispLabel, op)
+		}
+		if out == nil {
+			out = append([]string{}, operands...)
+		}
+		out[i] = op[:lb] + strings.Replace(op[lb:], mem.DispLabel, strconv.FormatUint(uint64(uint32(addr)), 10), 1)
+	}
+	if out == nil {
+		return operands, nil
+	}
+	return out, nil
+}
